@@ -327,7 +327,9 @@ def run_flatten(dom, with_cond, select_parent, cond=None, element_first=False):
         q = an(set_of(sel, *props))
     rows = list(q.evaluate())
     got = sorted((id(r[x]) if select_parent else 0, r[t]) for r in rows)
-    want = sorted((id(o) if select_parent else 0, e) for o in dom if (not with_cond or holds(cond, {0: o})) for e in o.tags)
+    # a non-iterable value (also a string) counts as a single element
+    want = sorted((id(o) if select_parent else 0, e) for o in dom if (not with_cond or holds(cond, {0: o}))
+                  for e in (o.tags if isinstance(o.tags, (list, tuple)) else [o.tags]))
     return got, want, q
 
 
